@@ -27,6 +27,7 @@ import (
 	"encoding/hex"
 	"errors"
 	"fmt"
+	"os"
 	"sort"
 	"strconv"
 	"strings"
@@ -41,6 +42,8 @@ import (
 
 	"verifharness/internal/vh"
 )
+
+var traceOn = os.Getenv("C19_TRACE") != ""
 
 var (
 	emptyRoot  = trie.VerifEmptyRoot()
@@ -514,6 +517,9 @@ func (w *world) expect(line, goOut string) {
 		return
 	}
 	got := w.ask(line)
+	if traceOn {
+		fmt.Fprintf(os.Stderr, "op %d: %s -> go=%q lean=%q\n", w.opIndex, line, goOut, got)
+	}
 	w.traces++
 	if w.drvErr == nil && got != goOut && w.corr == "" {
 		w.corr = fmt.Sprintf("op %d: %s: go=%q lean=%q", w.opIndex, line, goOut, got)
